@@ -296,3 +296,64 @@ func BadEmpty(gross, net, delta int) bool {
 	}
 	return empty
 }
+
+// ---- virtual inlining of helpers that are not in the function inventory (names starting with helperNew are
+// declared "new" by the self-test): the same guard / argument / pairing rules must hold when the code sits in a helper
+func helperNewCheckOwner(owner, sender string) error {
+	if owner != sender {
+		return errNo
+	}
+	return nil
+}
+
+func GoodGuardViaHelper(owner, sender string, amt int) error {
+	if err := helperNewCheckOwner(owner, sender); err != nil {
+		return err
+	}
+	return pay(owner, amt)
+}
+
+func helperNewCheckNothing(owner, sender string, amt int) error {
+	if owner != sender && amt > 5 {
+		return errNo
+	}
+	return nil
+}
+
+func BadGuardViaHelper(owner, sender string, amt int) error {
+	if err := helperNewCheckNothing(owner, sender, amt); err != nil {
+		return err
+	}
+	return pay(owner, amt)
+}
+
+func helperNewSettle(to string, amt int) error {
+	if err := pay(to, amt); err != nil {
+		return err
+	}
+	book(amt)
+	return nil
+}
+
+func GoodPairedViaHelper(to string, amt int) error { return helperNewSettle(to, amt) }
+
+func helperNewSettleWrong(to string, amt int) error {
+	if err := pay(to, amt+1); err != nil {
+		return err
+	}
+	book(amt)
+	return nil
+}
+
+func BadArgViaHelper(to string, amt int) error { return helperNewSettleWrong(to, amt) }
+
+func helperNewReceiver(receiver, owner string) string {
+	if receiver == "" {
+		return owner
+	}
+	return receiver
+}
+
+func GoodValueViaHelper(receiver, owner string, amt int) error {
+	return pay(helperNewReceiver(receiver, owner), amt)
+}
